@@ -191,7 +191,7 @@ pub fn independently_valid(z: &ZoneSpec) -> Option<bool> {
     let rule = match (&z.rule, z.version) {
         (None, _) | (_, 1) => return Some(true),
         (Some(r), v) => {
-            if r.needs_extensions() && v < 3 {
+            if r.needs_extensions_styled(z.rule_style) && v < 3 {
                 return Some(false);
             }
             r
